@@ -11,7 +11,7 @@ func init() {
 	register(&PropDef{
 		ID:          "C20",
 		Level:       "other",
-		Explanation: "That the kernel delivers a group signal to every member is trusted; decided is that the code asks for it on every path (non-windows configurations): PGID — every exec.Cmd that is started in the module's task-execution code has SysProcAttr{Setpgid: true}; TARGET — the pid argument of every syscall.Kill in the module is the negation of that command's Process.Pid (the whole process group); ESCALATION — the exec handler spawns, whenever the context can end, a watcher that after <-ctx.Done() sends SIGKILL at once when the kill timeout ≤ 0, and otherwise SIGINT plus an unconditional SIGKILL after Sleep(kill timeout), with the timeout wired from the task runner's killTimeout; WAIT — after a successful Start every path calls Wait before returning, and the stdout/stderr writers the runner hands to the compiled task are never bare *os.File values (io.MultiWriter results), so os/exec copies output through a pipe and Wait also covers every descendant that still holds it; ONLY THIS EXECUTOR — commands are executed only through the pgid executor (its exec handler is the one handed to the interpreter), the two other spawn sites (stage/task conditions) are unreachable because their guards read fields that are never set in the module, and every Execute reachable from a task run gets the runner's cancellable context; CANCEL WAITS — every task run is counted in the runner's WaitGroup and Cancel cancels the context and waits for all runs.",
+		Explanation: "That the kernel delivers a group signal to every member is trusted; decided is that the code asks for it on every path (non-windows configurations): PGID — every exec.Cmd that is started in the module's task-execution code has SysProcAttr{Setpgid: true}; TARGET — the pid argument of every syscall.Kill in the module is the negation of that command's Process.Pid (the whole process group); ESCALATION — the exec handler spawns, whenever the context can end, a watcher that after <-ctx.Done() sends SIGKILL at once when the kill timeout ≤ 0, and otherwise SIGINT plus an unconditional SIGKILL after Sleep(kill timeout), with the timeout wired from the task runner's killTimeout; WAIT — after a successful Start every path calls Wait before returning, and the stdout/stderr writers the runner hands to the compiled task are never bare *os.File values (io.MultiWriter results), so os/exec copies output through a pipe and Wait also covers every descendant that still holds it; ONLY THIS EXECUTOR — commands are executed only through the pgid executor (its exec handler is the one handed to the interpreter), the two other spawn sites (stage/task conditions) are unreachable because their guards read fields that are never set in the module, and every Execute reachable from a task run gets the runner's cancellable context; CANCEL WAITS — every task run is counted in the runner's WaitGroup and Cancel cancels the context and waits for all runs. FINISHED ⇒ WAITED — Scheduler.Schedule returns only behind WaitGroup.Wait for every stage goroutine it launched, on the cancel edge too (a job is reported finished only after Schedule returned, C01 slot-end).",
 		Trusted:     []string{"kill(-pgid, sig) reaches every member of the process group", "setpgid keeps descendants in the group unless they leave it", "mvdan/sh hands every external command to the configured ExecHandler"},
 		NotDecided:  []string{"that the kernel delivers to every member", "latency of delivery", "processes that leave their process group (setsid)"},
 		SkipConfig: func(bc BuildConfig) string {
@@ -82,6 +82,16 @@ func checkC20(w *World, r *Report) {
 		r.Undecided("anchors", "package taskctl", "-", "not found")
 		return
 	}
+	// "reported finished ⇒ no process alive" needs the scheduler to return only after every stage goroutine
+	// (whose Run waits for the task's processes) has finished — also on the cancel edge
+	if s := w.FuncByName("taskctl", "(*Scheduler).Schedule"); s != nil {
+		if ro := resolveRoles(w); ro.la != nil {
+			ro.goPaired(r, "finished.stages-paired", s, true)
+		}
+	} else {
+		r.Undecided("finished.stages-paired", "taskctl.Scheduler.Schedule", "-", "not found")
+	}
+	r.Floor("finished.", 2)
 	// anchor: the exec handler = the closure returned by a function returning interp.ExecHandlerFunc
 	var mk, handler *ssa.Function
 	for _, fn := range w.ModFuncs {
